@@ -635,7 +635,7 @@ func (p schedPre) apply(root string) {
 			_ = os.Rename(plans, filepath.Join(root, ".ergo", "events.jsonl"))
 		}
 	}
-	if p.TornTail > 0 {
+	if b := ReadLog(root); p.TornTail > 0 && (len(b) == 0 || b[len(b)-1] == '\n') {
 		frag := `{"type":"state","ts":"2026-01-01T00:00:00Z","data":{"id":"ZZZZZZ","state":"do` + bigBody(p.TornTail)
 		if f, err := os.OpenFile(LogPath(root), os.O_APPEND|os.O_WRONLY, 0o644); err == nil {
 			f.WriteString(frag)
